@@ -69,6 +69,26 @@ func gWitnessSameID(h *gHist) {
 	h.opRegisterV2(pi)
 }
 
+// gAppsHistory exercises every application store on a client pair with distinct identifiers and no
+// UNORDERED mock channel; the transfer channel (UNORDERED, hence aliased) is needed for ICS-20.
+func gAppsHistory(h *gHist) {
+	pi := h.opClients(true)
+	h.opConnection(pi)
+	h.opRegisterV2(pi)
+	ci := h.opChannel(pi, "transfer", "open")
+	h.opRateLimit(ci)
+	p := h.opTransfer(ci, true, 500, false) // escrow on A, pending rate-limit send, flow
+	h.opRecv(p)
+	p = h.opTransfer(ci, false, 300, false) // voucher denom on A
+	h.opRecv(p)
+	h.opAck(p)
+	h.opTransfer(ci, true, 40, true) // in flight, times out after the import
+	h.opForward(ci, 25)
+	h.opICA(pi, true)
+	h.opICA(pi, false)
+	h.opGMP(pi)
+}
+
 var gWitnesses = []struct {
 	name   string
 	script func(h *gHist)
@@ -76,6 +96,7 @@ var gWitnesses = []struct {
 	{"witness-open-unordered-channel", gWitnessOpen},
 	{"witness-alias-traffic", gWitnessTraffic},
 	{"witness-v2-same-client-id", gWitnessSameID},
+	{"apps-all-stores", gAppsHistory},
 }
 
 // ---- generator -----------------------------------------------------------------------------------
@@ -88,6 +109,7 @@ func gGenerated(r *lib.Rng, maxOps int, noAlias bool) func(h *gHist) {
 		h.opConnection(pi)
 		nops := 4 + r.Intn(maxOps-3)
 		var mock, ordered, transfer []int
+		rateLimited := map[int]bool{}
 		v2pairs := []int{}
 		for i := 0; i < nops; i++ {
 			switch k := r.Intn(20); {
@@ -158,8 +180,31 @@ func gGenerated(r *lib.Rng, maxOps int, noAlias bool) func(h *gHist) {
 				p := h.opSendV2(0, ci, true, r.Bool(), lib.Pick(r, []string{"sync", "sync", "fail", "async"}), r.Chance(0.3))
 				h.progress(r, p, false)
 			case k >= 18 && len(transfer) > 0:
-				p := h.opTransfer(lib.Pick(r, transfer), r.Bool(), int64(1+r.Intn(1000)), r.Chance(0.3))
-				h.progress(r, p, false)
+				ci := lib.Pick(r, transfer)
+				switch r.Intn(6) {
+				case 0:
+					if !rateLimited[ci] {
+						rateLimited[ci] = true
+						h.opRateLimit(ci)
+					}
+				case 1:
+					h.opForward(ci, int64(1+r.Intn(100)))
+				default:
+					p := h.opTransfer(ci, r.Bool(), int64(1+r.Intn(1000)), r.Chance(0.3))
+					h.progress(r, p, false)
+				}
+			}
+			if i == nops-1 && r.Chance(0.35) {
+				conn := []int{}
+				for j, p := range h.pairs {
+					if p.conn {
+						conn = append(conn, j)
+					}
+				}
+				h.opICA(lib.Pick(r, conn), r.Bool())
+				if len(v2pairs) > 0 && r.Bool() {
+					h.opGMP(lib.Pick(r, v2pairs))
+				}
 			}
 		}
 	}
